@@ -13,15 +13,16 @@
 \* decides on the lattices that they satisfy the documented relations:
 \*   GradientOK  central difference quotient of the cost = - force . direction   (exact: the pieces are quadratic)
 \*   C1OK        at a zone boundary the formulas of all adjacent zones give the same cost and the same force
-\*   ConvexOK    midpoint convexity of the cost against every other lattice point
+\*   ConvexOK    cost >= 0, midpoint convexity against partner lattice points, non-negative second differences
 \*   DualValueOK cost = - dual objective at the force;   DualOptimalOK  no admissible probe has a smaller objective
 \*   AdmissibleOK  the force lies in Omega
 \*   HessianOK   difference quotient of the force = - H . direction (middle zone; the force is linear on the slice),
 \*               H symmetric, v'Hv >= 0 on probe vectors
-\* and publishes in `ev` the flattened arrays of a whole constraint update (inputs and expected state / force /
-\* cost / cone Hessian) - the oracle of the replay into the real function.
+\* and builds, block by block, the flattened arrays of a whole constraint update in the variables efc / con / cost
+\* (inputs and expected state set / force / cost / cone Hessian) - the oracle of the replay into the real function.
+\* Variant # "doc" switches on deliberately wrong formulas (negative controls: TLC must refute them).
 \*
-\* A problem is a sequence of BLOCKS (one action each): equality rows first, then friction-loss rows, then limit /
+\* A problem is a sequence of BLOCKS (three short steps each: Pick, Point, Apply): equality rows first, then friction-loss rows, then limit /
 \* contact rows in any order, exactly the layout the function assumes (ne, nf, nefc; type and id arrays; one
 \* mjContact per contact block).  Elliptic blocks live on rational slices of the cone: tangential part
 \* U = t * dir with an integer direction of integer length nd, normal jar_1 = a * nd; then T = |t| nd is rational.
